@@ -165,8 +165,7 @@ static sqf::runtime::runtime::result execute_do(sqf::runtime::runtime& runtime, 
         }
 
         auto instruction = frame.current();
-        if (runtime.configuration().max_runtime != std::chrono::milliseconds::zero() &&
-            runtime.configuration().max_runtime + runtime.runtime_timestamp() < std::chrono::system_clock::now())
+        if (runtime.max_runtime_reached())
         {
 #ifdef DF__SQF_RUNTIME__ASSEMBLY_DEBUG_ON_EXECUTE
             std::cout << "\x1B[33m[ASSEMBLY ASSERT]\033[0m" <<
@@ -175,6 +174,9 @@ static sqf::runtime::runtime::result execute_do(sqf::runtime::runtime& runtime, 
                 "    " << "\x1B[36mEXIT execute_do\033[0m as max runtime (\x1B[90m" << runtime.configuration().max_runtime.count() << "ms\033[0m) was reached" << std::endl;
 #endif // DF__SQF_RUNTIME__ASSEMBLY_DEBUG_ON_EXECUTE
             runtime.__logmsg(logmessage::runtime::MaximumRuntimeReached((*instruction)->diag_info(), runtime.configuration().max_runtime));
+            // reporting the abort is no runtime error of a script: nothing may be left pending for the next run
+            runtime_error = false;
+            runtime.log_messages.clear();
             runtime.exit(0);
             return sqf::runtime::runtime::result::ok;
         }
@@ -311,6 +313,7 @@ sqf::runtime::runtime::result sqf::runtime::runtime::execute(sqf::runtime::runti
             SQFVM_VERIF_EVENT(guard_enter, *this);
             m_is_exit_requested = false;
             m_is_halt_requested = false;
+            m_run_timestamp = std::chrono::system_clock::now(); // max_runtime counts from the start of this run
             auto scopeNum = m_context_active->frames_size() - 1;
             m_state = state::running;
             while (!m_is_exit_requested && !m_is_halt_requested && !m_contexts.empty())
@@ -370,6 +373,7 @@ sqf::runtime::runtime::result sqf::runtime::runtime::execute(sqf::runtime::runti
             SQFVM_VERIF_POINT("start.reset_exit");
             m_is_exit_requested = false;
             m_is_halt_requested = false;
+            m_run_timestamp = std::chrono::system_clock::now(); // max_runtime counts from the start of this run
             SQFVM_VERIF_POINT("start.set_running");
             m_state = state::running;
             while (!m_contexts.empty())
@@ -388,6 +392,13 @@ sqf::runtime::runtime::result sqf::runtime::runtime::execute(sqf::runtime::runti
                         else
                         {
                             res = result::ok;
+                            if (max_runtime_reached())
+                            { // every script may be asleep: the limit has to end such a run too
+                                __logmsg(logmessage::runtime::MaximumRuntimeReached(m_context_active->current_frame().diag_info_from_position(), configuration().max_runtime));
+                                m_runtime_error = false;
+                                log_messages.clear();
+                                exit(0);
+                            }
                         }
                     }
                     else
@@ -481,6 +492,7 @@ sqf::runtime::runtime::result sqf::runtime::runtime::execute(sqf::runtime::runti
             SQFVM_VERIF_POINT("assembly_step.reset_exit");
             m_is_exit_requested = false;
             m_is_halt_requested = false;
+            m_run_timestamp = std::chrono::system_clock::now(); // max_runtime counts from the start of this run
             SQFVM_VERIF_POINT("assembly_step.set_running");
             m_state = state::running;
             res = execute_do(*this, 1);
@@ -528,6 +540,7 @@ sqf::runtime::runtime::result sqf::runtime::runtime::execute(sqf::runtime::runti
             SQFVM_VERIF_EVENT(guard_enter, *this);
             m_is_exit_requested = false;
             m_is_halt_requested = false;
+            m_run_timestamp = std::chrono::system_clock::now(); // max_runtime counts from the start of this run
             bool success;
             m_state = state::running;
             std::optional<diagnostics::diag_info> dinf;
